@@ -14,6 +14,16 @@ logger = Log(__name__)
 logger.debug("loading module")
 
 from .expressions import oper, composer, bit0
+from copy import copy
+
+
+def _signed(x):
+    "signed view of x (x itself, possibly a shared register object, is left untouched)"
+    if x.sf is not True:
+        x = copy(x)
+        x.sf = True
+    return x
+
 
 
 def Abs(x):
@@ -31,7 +41,7 @@ def AddWithCarry(x, y, c=None):
     if c is None:
         c = bit0
     c = c.zeroextend(y.size)
-    x.sf = y.sf = True
+    x, y = _signed(x), _signed(y)
     result = x + y + c
     sx, sy, sz = Sign(x), Sign(y), Sign(result)
     carry = (sx & sy) | (~sz & (sx | sy))
@@ -44,7 +54,7 @@ def SubWithBorrow(x, y, c=None):
     if c is None:
         c = bit0
     c = c.zeroextend(y.size)
-    x.sf = y.sf = True
+    x, y = _signed(x), _signed(y)
     result = x - y - c
     sx, sy, sz = Sign(x), Sign(y), Sign(result)
     carry = (~sx & sy) | (sz & (~sx | sy))
